@@ -1,7 +1,7 @@
 """C16 - tear-sheet PnL, win rate and profit factor match the closed positions."""
 import sympy
 
-from sa import atoms, formula, mir, table
+from sa import atoms, formula, mir, table, whomay
 from sa.mir import render, render_guard
 from rules import common
 
@@ -69,6 +69,18 @@ def r2(ctx):
     cb = ctx.ibody(r[1])
     ctx.check("calculate_pnl_return", [cb.param_name(i) for i in range(1, cb.argc + 1)] ==
               ["pnl_realised", "price_entry_average", "quantity_abs_max"], "parameter roles", key="params")
+    cases = cb.expanded_cases(0)
+    ok = len(cases) == 1
+    got = [render(c[1]) for c in cases]
+    if ok:
+        pr, pe, qm = sympy.symbols("pnl_realised price_entry_average quantity_abs_max")
+        try:
+            e = formula.to_sympy(ctx.facts, cases[0][1])
+            ok, got = formula.equal(e, pr / (pe * qm)), str(e)
+        except formula.NotAFormula as ex:
+            ok, got = False, "not a formula: %s" % ex
+    ctx.check("calculate_pnl_return", ok, "the return of a closed position is pnl_realised / (price_entry_average * quantity_abs_max), "
+              "for every input (no clamping, no special cases)", got=got, key="formula")
     eff = common.effects(b, lambda p: atoms.mentions_param(p, "self"))
     seen = {}
     for e in eff:
@@ -291,15 +303,7 @@ def r5(ctx):
                   got=got, want=(src, pair), key="pairing")
     common.summary_forwarders(ctx)
     # a closed position updates the tear sheet of its own InstrumentState
-    IS = "barter::engine::state::instrument::InstrumentState"
-    b = ctx.fibody(name="update_from_trade", self_adt=IS, trait="")
-    pm = "PositionManager::update_from_trade(self.position, trade)"
-    ups = [(bi, render(tm), common.canon_guard(b.guard(bi))) for bi, t, tm in b.real_calls() if mir.short(tm[1]) == "TearSheetGenerator::update_from_position"]
-    ok = len(ups) == 1 and ups[0][1] == "TearSheetGenerator::update_from_position(self.tear_sheet, %s.as:Some.0)" % pm and \
-        ups[0][2] == "(%s is Some)" % pm and render(b.return_term()) == pm
-    ctx.check("InstrumentState::update_from_trade", ok,
-              "the closed-position record of this instrument's position manager feeds this instrument's own tear sheet, exactly "
-              "when a position was closed, and is returned unchanged", got=[x[1:] for x in ups] + [render(b.return_term())[:120]], key="feeds-own")
+    common.instrument_feeds_own(ctx)
     # TearSheetGenerator::update_from_position feeds pnl_returns with that record
     b = ctx.fibody(name="update_from_position", self_adt=TSG, trait="")
     cs = [(bi, t, term) for bi, t, term in b.real_calls() if mir.short(term[1]) == "PnLReturns::update"]
@@ -309,10 +313,76 @@ def r5(ctx):
               got=[render(c[2]) for c in cs], key="feeds-pnl")
 
 
+def _fields(ctx, adt):
+    a = ctx.facts.adts.get(adt)
+    if not a or a["kind"] != "struct":
+        return None
+    return [(f["name"], f["ty"]) for f in a["variants"][0]["fields"]]
+
+
+def _resets_whole(ctx, fn, adt, depth=2):
+    """`fn(&mut self: adt, ..)` overwrites ALL of `*self`, unconditionally: one store of the whole value, or every field stored /
+    handed to a function that itself resets that field whole.  Returns (bool, fields not covered)"""
+    b = ctx.ibody(fn)
+    fields = _fields(ctx, adt)
+    if fields is None:
+        return False, ["?"]
+    covered = set()
+    for st in b.stores():
+        if b.guard(st[0]) != frozenset([frozenset()]):
+            continue
+        r = render(st[2])
+        if r == "self":
+            return True, []
+        if r.startswith("self.") and "." not in r[5:]:
+            covered.add(r[5:])
+    if depth > 0:
+        for bi, t, tm in b.real_calls():
+            if tm[1] in ctx.facts.bodies and tm[2] and b.guard(bi) == frozenset([frozenset()]):
+                r = render(tm[2][0])
+                for name, ty in fields:
+                    if r == "self." + name and ty in ctx.facts.adts and _resets_whole(ctx, tm[1], ty, depth - 1)[0]:
+                        covered.add(name)
+    missing = [n for n, ty in fields if n not in covered]
+    return not missing, missing
+
+
+def r6(ctx):
+    """lifetime of the recorded history: the accumulators are only ever accumulated (by the update functions checked above) or
+    replaced as a whole - a function that rewrites SOME of them leaves the others describing a different history"""
+    accum = {PNL: {"barter::statistic::summary::pnl::PnLReturns::update"}}
+    n = 0
+    for adt, accepted in accum.items():
+        owners = {}
+        for name, ty in _fields(ctx, adt):
+            for d, bi, kind, sp in whomay.writers_of(ctx.facts, adt, name):
+                if kind != "construct" and not common.is_test(ctx.facts, d):
+                    owners.setdefault(whomay.owner_fn(d), set()).add(name)
+        n += len(owners)
+        for o, written in sorted(owners.items()):
+            if o in accepted:
+                continue
+            whole, missing = _resets_whole(ctx, o, adt) if o in ctx.facts.bodies and ctx.ibody(o).param_name(1) == "self" else (False, ["?"])
+            ctx.check(mir.short(o), whole, "writes %s of %s in place: it must then overwrite ALL of it (missing: the fields it leaves "
+                      "behind keep describing the old history)" % (sorted(written), mir.short(adt)), got={"left behind": missing}, key="partial-write")
+    # TearSheetGenerator::reset starts a new history: everything recorded so far is dropped
+    rs = ctx.find(name="reset", self_adt=TSG, trait="")
+    whole, missing = _resets_whole(ctx, rs, TSG)
+    ctx.check("TearSheetGenerator::reset", whole, "reset overwrites the whole generator (nothing of the old history survives)",
+              got={"left behind": missing}, key="reset-whole")
+    b = ctx.ibody(rs)
+    st = [(render(x[2]), render(x[3])) for x in b.stores() if render(x[2]) == "self"]
+    if st:
+        ctx.check("TearSheetGenerator::reset", st == [("self", "TearSheetGenerator::init(time_engine_start)")],
+                  "the new generator is the initial one for the given start time", got=st, key="reset-init")
+    ctx.floor("in-place writers of PnLReturns", n, 1)
+
+
 RULES = [
     ("R1", "WinRate/ProfitFactor argument provenance in TearSheetGenerator::generate", r1),
     ("R2", "PnLReturns::update accumulation: pnl_raw, total on every path, losses iff negative", r2),
     ("R3", "decision tables of WinRate::calculate and ProfitFactor::calculate conventions", r3),
     ("R4", "TearSheet field provenance (pnl, win_rate, profit_factor)", r4),
     ("R5", "per-entity maps keep key and generator of the same entity together", r5),
+    ("R6", "recorded history is accumulated or replaced whole: no partial in-place rewrite; reset drops everything", r6),
 ]
